@@ -1939,6 +1939,14 @@ class TtlStmt(Suite):
                 before = len(g)
                 add([rng.choice(subs + bns), pred(), b])
                 refs += len(g) - before
+        # blank nodes that are written nested, [ ... ]: referenced exactly once, by an IRI subject; their own statements
+        # have IRI / literal / labelled-blank-node objects only (one level); some have no statement at all ([ ])
+        for x in rng.sample(["n1", "n2", "n3"], rng.choice([0, 0, 1, 1, 2])):
+            nb = ["B", x]
+            add([rng.choice(subs), pred(), nb])
+            for _ in range(rng.choice([0, 1, 2, 3])):
+                o = rng.choice(bns) if bns and rng.random() < 0.2 else self.gen_obj(rng)
+                add([nb, pred(), o])
         return {"graph": g, "bind": rng.choice(TS_BINDS)}
 
     _memo = {}
@@ -1950,6 +1958,13 @@ class TtlStmt(Suite):
         g = build(case["graph"], case["bind"])
         ser = _TurtleSer(g)
         stream = io_mod.BytesIO()
+        top = []
+        orig_statement = ser.statement
+
+        def rec_statement(subject):
+            top.append(subject)
+            return orig_statement(subject)
+        ser.statement = rec_statement
         try:
             ser.serialize(stream)
             text = stream.getvalue().decode("utf-8")
@@ -1974,21 +1989,36 @@ class TtlStmt(Suite):
                     lab = doc_labels[k - 1] if 0 < k <= len(doc_labels) else "?" + lab
                 return ["B", lab]
             return ["I", str.__str__(x)]
-        doc_labels = []
-        for m_ in re.finditer(r"(?:^|[ \n])_:([^ \n,]+)", text):
-            if m_.group(1) not in doc_labels:
-                doc_labels.append(m_.group(1))
-        ns = [[str(a), str.__str__(b)] for a, b in sorted(ser.namespaces.items())]   # the header, before any further query
-        plan = []
-        for s_ in ser.orderSubjects():
+        def plist(s_):
             props = ser.buildPredicateHash(s_)
-            plan.append([ab(s_), [[str.__str__(p_), [ab(o) for o in props[p_]]] for p_ in ser.sortProperties(props)]])
+            return [[str.__str__(p_), [ab(o) for o in props[p_]]] for p_ in ser.sortProperties(props)]
+        # the observed plan: the subjects statement() was called for, in that order; every other blank node that has been
+        # written (or has nothing to write) and is referenced at most once is a nested one
+        plan = [[ab(s_), plist(s_)] for s_ in top]
+        topset = {str.__str__(x) for x in top if isinstance(x, BNode)}
+        nests = {}
+        for _, pl_ in plan:
+            for _, os in pl_:
+                for o in os:
+                    if o[0] == "B" and o[1] not in topset and ser._references[BNode(o[1])] <= 1:
+                        nests[o[1]] = plist(BNode(o[1]))
+        sup = [o[1] for _, pl_ in plan for _, os in pl_ for o in os if o[0] == "B" and o[1] in nests]
+        # labels in the order in which the reader creates nodes: the k-th distinct _:label or opening bracket
+        doc_labels, k_sup = [], 0
+        for m_ in re.finditer(r"(?:^|[ \n])(_:[^ \n,]+|\[)", text):
+            tok = m_.group(1)
+            if tok == "[":
+                doc_labels.append(sup[k_sup] if k_sup < len(sup) else "?")
+                k_sup += 1
+            elif tok[2:] not in doc_labels:
+                doc_labels.append(tok[2:])
+        ns = [[str(a), str.__str__(b)] for a, b in sorted(ser.namespaces.items())]   # the header, before any further query
         q = []
         iris = set()
-        for s_, plist in plan:
+        for s_, plist_ in plan + [[["B", k_], v_] for k_, v_ in nests.items()]:
             if s_[0] == "I":
                 iris.add((False, s_[1]))
-            for p_, os in plist:
+            for p_, os in plist_:
                 iris.add((True, p_))
                 for o in os:
                     if o[0] == "I":
@@ -2006,7 +2036,13 @@ class TtlStmt(Suite):
         try:
             g2 = Graph().parse(data=text, format="turtle")
             got = {json.dumps([ab(x, True) for x in t]) for t in g2}
-            want = [[s_, ["I", p_], o] for s_, plist in plan for p_, os in plist for o in os]
+            want = []
+            for s_, plist_ in plan:
+                for p_, os in plist_:
+                    for o in os:
+                        want.append([s_, ["I", p_], o])
+                        if o[0] == "B" and o[1] in nests:
+                            want += [[o, ["I", p2], o2] for p2, os2 in nests[o[1]] for o2 in os2]
             back = [t for t in want if json.dumps(t) in got]
             extra = sorted(got - {json.dumps(t) for t in want})
             back += [json.loads(x) for x in extra]
@@ -2014,7 +2050,7 @@ class TtlStmt(Suite):
             raise
         except Exception:  # noqa: BLE001
             back = None
-        res = {"text": text, "plan": plan, "q": q, "ns": ns, "back": back}
+        res = {"text": text, "plan": plan, "q": q, "ns": ns, "back": back, "nests": [[k_, v_] for k_, v_ in nests.items()]}
         self._memo[k] = res
         if len(self._memo) > 3000:
             self._memo.clear()
@@ -2029,12 +2065,16 @@ class TtlStmt(Suite):
     def coq_case(self, case):
         a = self.analyse(case)
         if "error" in a:
-            a = {"plan": [], "q": [], "ns": []}
-        plan = clist(ctuple(c_tterm(s_), clist(ctuple(cstr(p_), clist(c_tterm(o) for o in os)) for p_, os in plist)) for s_, plist in a["plan"])
+            a = {"plan": [], "q": [], "ns": [], "nests": []}
+
+        def c_plist(pl_):
+            return clist(ctuple(cstr(p_), clist(c_tterm(o) for o in os)) for p_, os in pl_)
+        plan = clist(ctuple(c_tterm(s_), c_plist(pl_)) for s_, pl_ in a["plan"])
+        nest = clist(ctuple(cstr(k_), c_plist(v_)) for k_, v_ in a["nests"])
         q = clist(ctuple(ctuple(cbool(v), cstr(u)), ctuple(cstr(pre), cstr(loc))) for v, u, pre, loc in a["q"])
         ns = clist(ctuple(cstr(x), cstr(y)) for x, y in a["ns"])
         gtr = clist(c_ttriple(t) for t in case["graph"])
-        return "{| ts_g := %s; ts_ns := %s; ts_q := %s; ts_plan := %s |}" % (gtr, ns, q, plan)
+        return "{| ts_g := %s; ts_ns := %s; ts_q := %s; ts_nest := %s; ts_plan := %s |}" % (gtr, ns, q, nest, plan)
 
     def coq_obs(self, obs):
         return ctuple(cstr(obs["text"]), copt(obs["back"], lambda l: clist(c_ttriple(t) for t in l)))
@@ -2068,9 +2108,14 @@ TRUSTED = [
     "(codecs.StreamReader) is not - binary sources are exercised by conformance only (nt_text documents read from BytesIO, "
     "roundtrip cases through real files)",
     "K3: json.dumps / json.loads of a list of six str (CPython or orjson) is not modelled; the model is the six strings",
-    "K4 statement layer (coq/Codec/TurtleStmt.v): blank nodes only in the label form _:id (which blank nodes are written as "
-    "labels is part of the observed plan; [ ] and ( ) are not modelled); the model keeps the label, rdflib's Turtle reader "
-    "renames the k-th distinct label of a document to <letter><32 hex>b<k> and harness ttl_stmt maps it back before comparing; the plan (orderSubjects / buildPredicateHash / sortProperties incl. Python's "
+    "K4 statement layer (coq/Codec/TurtleStmt.v): blank nodes in the label form _:id and in the ONE-LEVEL nested form "
+    "[ p o ; ... ] / [ ] (objects inside a bracket are IRIs, literals or labelled blank nodes); which blank nodes are written "
+    "as labels and which are nested (the nest table) is part of the observed plan; deeper nesting and ( ) are not modelled. "
+    "The reader model takes the labels of the bracketed nodes from a supply that is a parameter; the theorem and the suite "
+    "use the supply that hands out the plan's labels in the order of the opening brackets (round trip up to the renaming of "
+    "the bracketed nodes). The model keeps written labels, rdflib's Turtle reader "
+    "renames the k-th distinct label or bracket of a document to <letter><32 hex>b<k> and harness ttl_stmt maps it back by "
+    "order of appearance in the text before comparing; the plan (orderSubjects / buildPredicateHash / sortProperties incl. Python's "
     "ordering of terms), the prefixed-name decisions getQName -> NamespaceManager.compute_qname / split_uri and the final prefix "
     "table are INPUTS observed from the serialiser under test by harness ttl_stmt (the theorems quantify over all of them); that "
     "the plan covers the graph is checked per case, not proved. The reader model of that layer is a reader for the writer's "
@@ -2099,7 +2144,9 @@ ASSUMPTIONS = [
     "'function of the label computed from the column' instead of literally (HextRow.relabel)",
 ]
 RULE = ("ttl_stmt: graphs of 1-6 triples over 23 IRIs and 0-2 blank nodes, each referenced at least twice so that the "
-        "serialiser writes it as a label _:id (labels with '-', '.', '_'); 23 IRIs (rdf:nil, rdf:type, IRIs with and without a "
+        "serialiser writes it as a label _:id (labels with '-', '.', '_'), plus 0-3 blank nodes referenced exactly once as "
+        "the object of an IRI subject, with 0-3 own statements whose objects are IRIs / literals / labelled blank nodes, so that "
+        "the serialiser writes them nested [ ... ] (about 60% of the cases have a bracket, some the empty [ ]); 23 IRIs (rdf:nil, rdf:type, IRIs with and without a "
         "prefixed form), 12 predicates, literals over the special alphabet with languages, custom / xsd:string datatypes, bare "
         "integers and booleans, 7 prefix-binding sets (empty prefix, '_' prefix, a prefix colliding with rdf); ttl_islist: list "
         "cells with cyclic / shared / odd tails; nt_text / ttl_string: all strings of length <= 2 over the 14-character alphabet first, then random triples, escape "
